@@ -454,7 +454,56 @@ def run_writer(sc, chooser):
     return {"ev": s.log, "errors": [repr(t.error) for t in s.threads.values() if t.error] + ([s.deadlock] if s.deadlock else [])}, s.steps
 
 
-RUNNERS = {"regrace": run_regrace, "fanout": run_fanout, "writer": run_writer, "memlog": run_memlog, "filedest": run_filedest, "handover": run_handover, "once": run_once}
+def run_writer_stall(sc, chooser):
+    """Free-running (no scheduler): the wrapped destination stalls on its first message while a producer offers many more.
+    Logging must not block on slow output: the producer finishes while the destination is still stalled."""
+    import importlib, queue as _queue
+    import eliot.logwriter as LW
+    importlib.reload(LW)                              # undo any shim installed by other scenarios
+
+    class Pool:
+        def callInThread(self, f, *a, **kw):
+            threading.Thread(target=lambda: f(*a, **kw), daemon=True).start()
+
+    class Reactor:
+        def getThreadPool(self):
+            return Pool()
+
+    gate = threading.Event()
+    written = []
+    wthreads = set()
+
+    def wrapped(msg):
+        wthreads.add(threading.get_ident())
+        if not written:
+            gate.wait(30)
+        written.append(msg["id"])
+
+    w = LW.ThreadedWriter(wrapped, Reactor())
+    w.startService()
+    n = sc["n"]
+    done = threading.Event()
+
+    def producer():
+        for i in range(1, n + 1):
+            w(dict(base(i), message_type="m"))
+        done.set()
+
+    pt = threading.Thread(target=producer, daemon=True)
+    pt.start()
+    finished = done.wait(sc.get("patience_s", 8))
+    gate.set()
+    done.wait(30)
+    r = w.stopService()
+    t0 = time.time()
+    while not r.done and time.time() - t0 < 30:
+        time.sleep(0.01)
+    return {"ev": [], "n": n, "producer_finished_while_stalled": bool(finished), "written_in_order": written == list(range(1, n + 1)),
+            "written": len(written), "writer_threads": len(wthreads), "stop_completed": bool(r.done),
+            "errors": []}, [([], "free-running", False)]
+
+
+RUNNERS = {"writer_stall": run_writer_stall, "regrace": run_regrace, "fanout": run_fanout, "writer": run_writer, "memlog": run_memlog, "filedest": run_filedest, "handover": run_handover, "once": run_once}
 
 
 def main():
